@@ -15,6 +15,7 @@ import (
 	"net/url"
 	"time"
 
+	"github.com/wi1dcard/fingerproxy/pkg/certwatcher"
 	fp "github.com/wi1dcard/fingerproxy/pkg/fingerprint"
 	"github.com/wi1dcard/fingerproxy/pkg/metadata"
 	"github.com/wi1dcard/fingerproxy/pkg/reverseproxy"
@@ -140,3 +141,18 @@ func VerifC15_probe_wiring() {
 
 //verif:replace (*net/http.Transport).Clone
 func stubTransportClone(t *http.Transport) *http.Transport { return &http.Transport{} }
+
+// C14 wiring: the TLS config asks the certificate watcher for the certificate at every handshake.
+func VerifC14_tls_config_wiring() {
+	cw := &certwatcher.CertWatcher{}
+	cfg := defaultTLSConfig(cw)
+	vReach("tls-config")
+	if cfg.GetCertificate == nil {
+		vFail("tls-config-uses-the-watcher")
+		return
+	}
+	got, err := cfg.GetCertificate(nil)
+	want, _ := cw.GetCertificate(nil)
+	vAssert(err == nil && got == want, "tls-config-uses-the-watcher")
+	vAssert(len(cfg.Certificates) == 0, "no-static-certificate-shadows-the-watcher")
+}
